@@ -29,7 +29,6 @@ def register(PROPS, CLASSIFIERS, REPLAY_RUNNERS):
         "q_checks": [_lazy("c12", "c12_cut_points"), _lazy("c12", "c12_rejects"), _lazy("c12", "c12_directed")],
         "lake_targets": ["driver_snap"], "thorough_scale": 8,
     }
-    CLASSIFIERS["snapshot-resorts-history-by-id"] = _call("c12", "classify_history_order")
     CLASSIFIERS["from_snapshot-shape-validation"] = _call("c12", "classify_shape_validation")
 
     # ------------------------------------------------------------------ C14 lifecycle / C04 ordering
@@ -58,3 +57,25 @@ def register(PROPS, CLASSIFIERS, REPLAY_RUNNERS):
     CLASSIFIERS["sync-drain-budget-counts-external-events"] = _sync_drain_budget
     CLASSIFIERS["async-chain-breaker-drops-external-event"] = _async_breaker_drops_external
     CLASSIFIERS["async-start-runs-loop-during-initial-entry"] = _async_start_interleaved
+
+    # ------------------------------------------------------------------ C19 Python-defined machines, discovery
+    def _c19cls(name):
+        def f(prob, case, flavor):
+            from . import c19
+            return c19.CLASSIFIERS[name](prob, case, flavor)
+        return f
+    PROPS["C19"] = {
+        "flavors": ["sync"], "streams": [], "oracles": [],
+        "q_checks": [_lazy("c19", n) for n in ("c19_snake", "c19_lookup", "c19_required", "c19_arity", "c19_compile",
+                                               "c19_discovery", "c19_styles")],
+        "lake_targets": ["driver_py"],
+        # explored by function-level checks only; its runner classifies their monitor failures itself
+        "runner": lambda prop, tier, seed: _call("c19", "run")(prop, tier, seed),
+        "replayer": lambda prop, path: _call("c19", "replay_file")(path),
+    }
+    for _n in ("c19-two-states-with-the-same-bare-name", "c19-builder-appends-where-other-styles-replace",
+               "c19-deep-shared-substructure-between-builds", "c19-discovery-skips-user-action-named-like-builtin",
+               "c19-spawn-directive-in-invoke-transition-demanded-as-action",
+               "c19-spawn-directive-in-invoke-transition-rejected-at-creation",
+               "c19-machinelogic-subclass-verbatim-names-no-failfast"):
+        CLASSIFIERS[_n] = _c19cls(_n)
